@@ -358,4 +358,69 @@ theorem pktCloneM_spec (H : Heap) (p : PacketM) (hok : okPacket H p) : CopyPacke
       obtain ⟨cs, hb', hcs⟩ := this
       exact ⟨cs, by rw [hX2]; exact get_ext X2 hb', fun c hc => by rw [hX2]; exact okBytes_ext X2 (hcs c hc)⟩
 
+/-! ### confinement: a later heap differs from `H'` only inside `R` or beyond `H'` -/
+
+def Confined (H' : Heap) (R : List Nat) (H'' : Heap) : Prop :=
+  ∀ b, b < H'.length → b ∉ R → H''[b]? = H'[b]?
+
+theorem Confined.refl (H' : Heap) (R : List Nat) : Confined H' R H' := fun _ _ _ => rfl
+
+theorem Confined.set {H' H1 : Heap} {R : List Nat} (h : Confined H' R H1) (a : Nat) (c : Cell)
+    (ha : a ∈ R ∨ H'.length ≤ a) : Confined H' R (H1.set a c) := by
+  intro b hb hR
+  rw [List.getElem?_set_ne (by rcases ha with ha | ha <;> intro e <;> subst e <;> first | exact hR ha | omega)]
+  exact h b hb hR
+
+theorem Confined.alloc {H' H1 : Heap} {R : List Nat} (h : Confined H' R H1) (hl : H'.length ≤ H1.length)
+    (X : Heap) : Confined H' R (H1 ++ X) := by
+  intro b hb hR
+  rw [List.getElem?_append_left (by omega)]
+  exact h b hb hR
+
+/-- every one of the five mutations, applied to a value `x`, changes memory only in cells `x`
+    reaches or in cells allocated afterwards -/
+theorem applyMutM_confined (H' : Heap) (x : PacketM) (m : MutM) :
+    Confined H' (reachPacket H' x) (applyMutM H' x m).1 := by
+  cases m with
+  | payloadByte i =>
+    simp only [applyMutM]
+    cases hp : x.payload with
+    | nil => exact Confined.refl _ _
+    | «at» a =>
+      exact (Confined.refl _ _).set a _ (Or.inl (by simp [reachPacket, hp, Sl.addrs]))
+  | csrcEntry i =>
+    simp only [applyMutM]
+    cases hp : x.header.csrc with
+    | nil => exact Confined.refl _ _
+    | «at» a =>
+      exact (Confined.refl _ _).set a _ (Or.inl (by simp [reachPacket, reachHeader, hp, Sl.addrs]))
+  | extByte j i =>
+    cases hc : (readCells H' x.header.exts)[j]? with
+    | none => simp only [applyMutM, hc]; exact Confined.refl _ _
+    | some c =>
+      cases hp : c.payload with
+      | nil => simp only [applyMutM, hc, hp]; exact Confined.refl _ _
+      | «at» a =>
+        simp only [applyMutM, hc, hp]
+        refine (Confined.refl _ _).set a _ (Or.inl ?_)
+        have hmem : c ∈ readCells H' x.header.exts := List.mem_of_getElem? hc
+        simp only [reachPacket, reachHeader, List.mem_append, List.mem_flatMap]
+        exact Or.inl (Or.inr ⟨c, hmem, by simp [hp, Sl.addrs]⟩)
+  | delExt id =>
+    simp only [applyMutM]
+    cases hp : x.header.exts with
+    | nil => exact Confined.refl _ _
+    | «at» a =>
+      exact (Confined.refl _ _).set a _ (Or.inl (by simp [reachPacket, reachHeader, hp, Sl.addrs]))
+  | setExt id pl =>
+    simp only [applyMutM]
+    cases hp : x.header.exts with
+    | nil => exact ((Confined.refl _ _).alloc (Nat.le_refl _) _).alloc (by simp) _
+    | «at» a =>
+      simp only
+      split
+      · exact ((Confined.refl _ _).alloc (Nat.le_refl _) _).set a _
+          (Or.inl (by simp [reachPacket, reachHeader, hp, Sl.addrs]))
+      · exact ((Confined.refl _ _).alloc (Nat.le_refl _) _).alloc (by simp) _
+
 end Rtp.Proofs.CloneMem
